@@ -560,7 +560,10 @@ func (ex *Exec) snapshot(label, kind, msg string, m Model, pos token.Pos) *Viola
 			v.Inputs = append(v.Inputs, InputVal{T: "bytes", V: sb.String()})
 			continue
 		}
-		val := m[in.vars[0].name]
+		val, inModel := m[in.vars[0].name]
+		if !inModel && in.vars[0].ranged {
+			val = in.vars[0].rlo // unconstrained by the query: any value of its declared range
+		}
 		v.Inputs = append(v.Inputs, InputVal{T: in.T, V: strconv.FormatUint(val, 10)})
 	}
 	for _, o := range ex.observes {
